@@ -273,6 +273,11 @@ Corruptions(b, c) ==
   \cup {C("amount_out_minus", [b EXCEPT !.outs[i].v = @ - 1], c) : i \in {j \in Idx(b.outs) : b.outs[j].v > 0}}
   \cup {C("amount_in_plus",   [b EXCEPT !.ins[i].v = @ + 1], c) : i \in Idx(b.ins)}
   \cup {C("amount_in_minus",  [b EXCEPT !.ins[i].v = @ - 1], c) : i \in {j \in Idx(b.ins) : b.ins[j].v > 0}}
+  \* the imbalance a sign error in the overage would hide: outputs exceed inputs by the fee (transaction),
+  \* inputs exceed the non-coinbase outputs by twice the subsidy (block)
+  \cup (IF c.as = "tx"
+        THEN {C("amount_out_plus_twice_fee", [b EXCEPT !.outs[i].v = @ + 2 * Fee(b)], c) : i \in {j \in Idx(b.outs) : Fee(b) > 0}}
+        ELSE {C("amount_in_plus_twice_reward", [b EXCEPT !.ins[i].v = @ + 2 * Reward], c) : i \in Idx(b.ins)})
   \* fee +-1 on a fee-carrying kernel, re-signed for the new fee
   \cup {C("fee_plus",  [b EXCEPT !.kerns[i].fee = @ + 1], c) : i \in {j \in Idx(b.kerns) : b.kerns[j].kind # "cb"}}
   \cup {C("fee_minus", [b EXCEPT !.kerns[i].fee = @ - 1], c) :
@@ -330,9 +335,12 @@ Corruptions(b, c) ==
                                       C("nrd_disabled", b, [c EXCEPT !.nrd = FALSE])} ELSE {})
         ELSE {})
 
+CorruptionChoices(b, c, a) == Corruptions(b, c)     \* MC modules may substitute a sample
+
 \* Classes that never yield a valid body when applied alone to a valid base (checked by TLC).
 \* ("amount", "fee", "offset", "excess" pairs can compensate each other: thorough tier.)
 AlwaysRefused == {
+  "amount_out_plus_twice_fee", "amount_in_plus_twice_reward",
   "amount_out_plus", "amount_out_minus", "amount_in_plus", "amount_in_minus", "fee_plus", "fee_minus",
   "offset_plus", "offset_minus", "excess_plus", "excess_minus", "kernel_dropped",
   "kernel_duplicated_identical", "kernel_duplicated_resigned", "kernel_foreign",
@@ -372,7 +380,7 @@ ChooseBase ==
 Corrupt ==
   /\ phase = "body"
   /\ Len(applied) < MaxCorrupt
-  /\ \E k \in Corruptions(body, ctx) :
+  /\ \E k \in CorruptionChoices(body, ctx, applied) :
        /\ body' = k.body /\ ctx' = k.ctx
        /\ applied' = Append(applied, k.cls)
   /\ UNCHANGED <<phase, grp, vals>>
